@@ -203,8 +203,14 @@ def c19(rep, tier):
     # function of the text (no process-wide counter or clock consulted while parsing, no identity given to a compiled node)
     r_freeze.run_statics(p, rep)
     r_lock.run_ambient(p, rep)
+    # eager/lazy hand the same compiled object to every use, on-demand a fresh one: a compiled template with interior state
+    # (a cached hint, a depth counter) makes the policies differ — compiled renderables are frozen
+    r_freeze.run_freeze(p, rep)
     g = grammar.load(facts.REPO)
     r_panic.run(p, rep, g, "both", only=_partial_files)
+    # the eager policy compiles every registered partial while the parser is built: a *panic* anywhere in parsing is a build
+    # that fails because of a partial nobody uses — the parse-side census (C01's) is therefore an obligation of C19 as well
+    r_panic.run(p, rep, g, "parse", only=lambda fn: not _partial_files(fn))
     rep.analysed["config:all"] = {"bodies": len(p.fns)}
 
 
